@@ -433,6 +433,31 @@ pub fn c19_file(ctx: &Ctx, out: &mut RunOut) -> Result<(), Violation> {
             .map_err(|e| Violation::new("healthy-save-failed", format!("save after failed save({name}) failed: {e}")))?;
         check_reload(ctx, "save after failed save(path)", &again, &model, if incr { 2 } else { 1 })?;
     }
+    // a real file that the kernel refuses to grow beyond a drawn size (RLIMIT_FSIZE): the write that
+    // crosses the limit is cut short and the next one fails with EFBIG — a hard sink failure at an
+    // arbitrary byte offset of the real file sink, BufWriter included
+    if !reference.is_empty() {
+        let limit = ctx.draw(F, reference.len() as u64, "fsize-limit") as usize;
+        let p = dir.join(format!("limited-{}.pdf", std::process::id()));
+        let mut t = target.clone_t();
+        let r = with_fsize_limit(limit as u64, || guarded("save(path) under RLIMIT_FSIZE", || save_path(&mut t, &p)))?;
+        ctx.count(if reference.len() - limit <= 8192 { "efbig-in-final-buffer" } else { "efbig-mid-file" });
+        let on_disk = std::fs::read(&p).unwrap_or_default();
+        let _ = std::fs::remove_file(&p);
+        if r.is_ok() {
+            return Err(Violation::new(
+                "ok-after-hard-fault",
+                format!("save(path) returned Ok although the file could not grow beyond {limit} of {} bytes (EFBIG)", reference.len()),
+            ));
+        }
+        if on_disk.len() > limit || on_disk[..] != reference[..on_disk.len()] {
+            return Err(Violation::new("delivered-not-a-prefix", format!("file content after EFBIG at {limit} is not a prefix of the complete output")));
+        }
+        let mut again = Vec::new();
+        guarded("save_to(Vec) after failed save", || t.save_to(&mut again))?
+            .map_err(|e| Violation::new("healthy-save-failed", format!("save after save(path) hit EFBIG failed: {e}")))?;
+        check_reload(ctx, "save after EFBIG", &again, &model, if incr { 2 } else { 1 })?;
+    }
     // healthy file: same bytes as the in-memory reference
     let p = dir.join(format!("ok-{}.pdf", std::process::id()));
     let mut t = target.clone_t();
@@ -658,4 +683,20 @@ pub fn c01_bytepairs(ctx: &Ctx, out: &mut RunOut) -> Result<(), Violation> {
     out.nontrivial = true;
     out.sample = format!("all 256 byte pairs starting with {b:#04x} as literal string, hex string, name and dictionary key");
     Ok(())
+}
+
+
+/// Run `f` while the process may not grow any file beyond `limit` bytes (SIGXFSZ ignored, so the
+/// failing write returns EFBIG instead of killing the process). The limit is restored afterwards.
+fn with_fsize_limit<T>(limit: u64, f: impl FnOnce() -> T) -> T {
+    unsafe {
+        libc::signal(libc::SIGXFSZ, libc::SIG_IGN);
+        let mut old = libc::rlimit { rlim_cur: 0, rlim_max: 0 };
+        libc::getrlimit(libc::RLIMIT_FSIZE, &mut old);
+        let new = libc::rlimit { rlim_cur: limit as libc::rlim_t, rlim_max: old.rlim_max };
+        libc::setrlimit(libc::RLIMIT_FSIZE, &new);
+        let r = f();
+        libc::setrlimit(libc::RLIMIT_FSIZE, &old);
+        r
+    }
 }
